@@ -22,7 +22,8 @@ def render (canon : String) (r : M Part) : String :=
     if rows.any hasErr then "PANIC"
     else
       let v := Val.ofList rows
-      let v := if canon == "deep" then Val.deepCanon v else v
+      let v := if canon == "deep" then Val.deepCanon v
+               else if canon == "top" then Val.ofList (Val.sortByEnc rows) else v
       "OK " ++ v.enc
 
 def handlePipe (toks : List String) : String :=
